@@ -67,6 +67,7 @@ type Contract struct {
 	Props     []string
 	Requires  []Clause
 	Ensures   []Clause
+	TrustedEnsures []Clause
 	LoopInv   map[int][]Clause
 	Modifies  []Clause
 	ModAll    bool // default for unknown callee; contracts default to modifies nothing unless declared
@@ -350,6 +351,13 @@ func (cs *ContractSet) directive(cur **Contract, body, path string, ln int, pkgP
 			return err
 		}
 		c.Ensures = append(c.Ensures, cl)
+	case "trusted-ensures":
+		// a postcondition callers may assume but which is NOT proved on the body (listed as an assumption)
+		cl, err := mk(rest)
+		if err != nil {
+			return err
+		}
+		c.TrustedEnsures = append(c.TrustedEnsures, cl)
 	case "modifies":
 		c.HasMod = true
 		if rest == "" || rest == "nothing" {
